@@ -234,7 +234,7 @@ def run(ctx, report):
                 else:
                     R3.violation(inst, 'getdstflow:arity:%s:%d:value' % (c.name, nargs), '%s returns %r' % (inst, r.v), where(arch, fn))
             except _NC as e:
-                if 'Raise' in str(e):
+                if 'Raise' in str(e) or getattr(e, 'exc_name', None) is not None:
                     R3.violation(inst, 'getdstflow:arity:%s:%d' % (c.name, nargs), 'the opcode table gives %s (%d operands) the destination-flow attribute, but getdstflow raises for every '
                                  'instruction that does not have exactly one operand' % (c.name, nargs), where(arch, fn), witness='dis(9a 78 56 34 12 34 12).getdstflow() raises ValueError')
                 else:
